@@ -883,6 +883,12 @@ func (env *SpecEnv) evalCall(e *ast.CallExpr) (TV, error) {
 			return TV{slLen(x.t), types.Typ[types.Int]}, nil
 		}
 		return TV{}, fmt.Errorf("len of %s", x.t.sort)
+	case "ghost":
+		g, ok := e.Args[0].(*ast.Ident)
+		if !ok {
+			return TV{}, fmt.Errorf("ghost(name) expected")
+		}
+		return TV{ex.heapGet(env.state(), "G_ghost."+g.Name, SInt), types.Typ[types.Int]}, nil
 	case "heapof":
 		sel, ok := e.Args[0].(*ast.SelectorExpr)
 		if !ok {
@@ -1074,6 +1080,17 @@ func (env *SpecEnv) evalCall(e *ast.CallExpr) (TV, error) {
 			return TV{}, err
 		}
 		return TV{x.t, types.Typ[types.Int64]}, nil
+	case "divides":
+		a, err := env.eval(e.Args[0])
+		if err != nil {
+			return TV{}, err
+		}
+		b, err := env.eval(e.Args[1])
+		if err != nil {
+			return TV{}, err
+		}
+		// divides(s, x): s > 0 divides x (SMT mod is the non-negative remainder, so this is x % s == 0 for every sign of x)
+		return TV{Eq(mk(SInt, "mod", b.t, a.t), IntLit(0)), boolT}, nil
 	case "sqrt":
 		x, err := env.eval(e.Args[0])
 		if err != nil {
